@@ -38,6 +38,9 @@
 (*     default = [k|->"nodef"] | [k|->"val", v |-> x] | [k|->"fac", v |-> x]*)
 (*     hookspec = [k|->"nohook"] | [k|->"rejectif", f |-> field, c |-> cond]*)
 (*         (a __post_init__ that raises when cond holds on the field)      *)
+(*                | [k|->"rejectifset", f |-> field]  (a __post_init__ that    *)
+(*         raises when the field is in the record of explicitly set fields,  *)
+(*         self.__pane_set__, as the hook sees it)                           *)
 (*                | [k|->"rangehook"]  the __post_init__ of the shipped       *)
 (*         pane.types.Range: fields start, end, n, step; exactly one of n /  *)
 (*         step is given and the other one is derived (RangeHook below)      *)
@@ -358,13 +361,14 @@ FieldVals(C, v, b) ==
      THEN Img(C.fs[j].t, v.ps[CHOOSE i \in b.known : b.idx[i] = j][2])
      ELSE Dec(C.fs[j].d.v)]
 
-HookRejects(C, vals) ==
+HookRejects(C, vals, setnames) ==
   IF C.hook.k = "nohook" THEN "F"
+  ELSE IF C.hook.k = "rejectifset" THEN B3(C.hook.f \in setnames)
   ELSE LET j == CHOOSE j \in DOMAIN C.fs : C.fs[j].n = C.hook.f IN Holds(C.hook.c, vals[j])
 (* verdict of the class' __post_init__ on the converted field values, and the values it leaves behind *)
-HookVerdict(C, vals) ==
+HookVerdict(C, vals, setnames) ==
   IF C.hook.k = "rangehook" THEN RangeHook(vals).v
-  ELSE IF HookRejects(C, vals) = "F" THEN "A" ELSE "R"
+  ELSE IF HookRejects(C, vals, setnames) = "F" THEN "A" ELSE "R"
 HookVals(C, vals) == IF C.hook.k = "rangehook" THEN RangeHook(vals).fv ELSE vals
 
 ClsVerdict(C, v) ==
@@ -375,14 +379,14 @@ ClsVerdict(C, v) ==
             ELSE LET r == KSeq([i \in DOMAIN v.ps |->
                                   IF i \in b.known THEN Verdict(C.fs[b.idx[i]].t, v.ps[i][2]) ELSE "A"]) IN
                  IF r # "A" THEN r
-                 ELSE HookVerdict(C, FieldVals(C, v, b))
+                 ELSE HookVerdict(C, FieldVals(C, v, b), {C.fs[j].n : j \in b.bound})
   ELSE IF IsSeqV(v) THEN
        IF "tuple" \notin Range(C.inf) THEN "R"
        ELSE LET pos == PosFields(C) IN
             IF Len(v.xs) < ReqCount(C) \/ Len(v.xs) > Len(pos) THEN "R"
             ELSE LET r == KSeq([i \in DOMAIN v.xs |-> Verdict(pos[i].t, v.xs[i])]) IN
                  IF r # "A" THEN r
-                 ELSE HookVerdict(C, ClsImgRaw(C, v).fv)
+                 ELSE HookVerdict(C, ClsImgRaw(C, v).fv, ClsImgRaw(C, v).set)
   ELSE "R"
 
 (* [fv |-> field values in field order, set |-> names explicitly supplied] *)
